@@ -11,17 +11,19 @@
   1601..2100 with a time of day or all-day; `FillOk`, `StreamOk`).
 
   Hypotheses, and why they are there:
-  * `KindOk r ds` -- RFC 5545: no BYHOUR / BYMINUTE / BYSECOND when DTSTART is a DATE.  Without it the fillers
-    write instants with hour ALL_DAY and a minute (`needs_kindOk`).
+  * (gone: `KindOk r ds` -- RFC 5545: no BYHOUR / BYMINUTE / BYSECOND when DTSTART is a DATE.  The yearly, monthly,
+    weekly and daily filler used to expand these parts all the same and wrote instants with hour ALL_DAY and a minute.
+    Since `make_enum` ignores them next to a DATE value (RFC 5545, 3.3.10: "MUST be ignored") the hypothesis is not
+    needed for any frequency: `kind_not_needed`, `kind_not_needed_stream` are the former counterexample, now sane.
+    The sub-daily fillers read a DATE seed as midnight and never needed it.)
   * `ShiftOk r` -- echse's SHIFT extension is absent, or moves by at most 365 calendar days (`SHIFT=n`), or by at
     most 250 business days (`SHIFT=nB`, `nB+`, `nB-`, `-nB`, …), so that a date stays within the neighbouring year.
     A far SHIFT writes dates that do not exist (`needs_shiftOk`: SHIFT=-672 yields 2021-02-29).  NOT covered: a
     SHIFT with both parts (`SHIFT=n,mB`) -- open.  (The SHIFT lemmas used here, RrAsm3/4/9, are about echse's own
     every-fourth-year calendar and hold for all years; C17's are against the Gregorian calendar, 1902..2098.)
-  Both are needed for "every occurrence is a sane instant" (`stream_sane`; `needs_kindOk_stream`,
-  `needs_shiftOk_stream`), i.e. for the `wf` part of the fillers' contract `FillOk`, on which the stream proof leans
-  because what a filler writes last is the seed of the next filler call; whether order and bounds alone (`StreamOk`)
-  can fail without them is not settled.
+  It is needed for "every occurrence is a sane instant" (`stream_sane`; `needs_shiftOk_stream`), i.e. for the `wf`
+  part of the fillers' contract `FillOk`, on which the stream proof leans because what a filler writes last is the
+  seed of the next filler call; whether order and bounds alone (`StreamOk`) can fail without it is not settled.
   Proofs: Echse/Lemmas/RrAsm1..12 (assembly), RrStrmOk (stream invariant), Rr{Yly,Mly,Wly,Dly,Hly,Mnly,Sly}Ok.
 -/
 import Echse.Lemmas.RrAsm8
@@ -30,9 +32,8 @@ namespace C16
 open Echse.Rrule Echse.Instant Echse.Spec.RrOk
 open Echse.Lemmas.RrStrmOk Echse.Lemmas.RrAsm
 
-/-! ### the hypotheses, spelt out -/
+/-! ### the hypothesis, spelt out -/
 
-theorem kindOk_def (r : Rule) (ds : Inst) : KindOk r ds ↔ (ds.H = allDay → r.H = [] ∧ r.M = [] ∧ r.S = []) := Iff.rfl
 theorem shiftOk_def (r : Rule) :
     ShiftOk r ↔ (r.shift = 0 ∨ (∃ n : Int, r.shift = n * 65536 ∧ -365 ≤ n ∧ n ≤ 365) ∨
       (0 < r.shift ∧ r.shift < 65536 ∧ r.shift / 4 ≤ 250)) := Iff.rfl
@@ -54,62 +55,88 @@ theorem shiftOk_bdays (r : Rule) (count : Nat) (back keep : Bool) (hc : 1 ≤ co
 /-- every filler call delivers at most `n` and at most COUNT sane instants, none before its seed, none after UNTIL,
 strictly ascending -/
 theorem fill_ok (r : Rule) (p : Inst) (n : Nat) (l : List Inst) (hr : WfRule r) (hp : WfInst p)
-    (hk : KindOk r p) (hs : ShiftOk r) (hn : n ≤ 64) (h : fill r p n = some l) : FillOk r p n l :=
-  fill_contract r p n l hr hp hk hs hn h
+    (hs : ShiftOk r) (hn : n ≤ 64) (h : fill r p n = some l) : FillOk r p n l :=
+  fill_contract r p n l hr hp hs hn h
 
-/-- … and what it writes has the kind of its seed (an all-day instant only from an all-day seed; the sub-daily fillers
-never write one), so `KindOk` goes on to the seed of the next refill -/
+/-- … and what it writes has the kind of its seed: an all-day instant only from an all-day seed (the sub-daily fillers
+never write one) -/
+theorem fill_keeps_kind (r : Rule) (p : Inst) (n : Nat) (l : List Inst) (hr : WfRule r) (hp : WfInst p)
+    (h : fill r p n = some l) : ∀ x ∈ l, x.H = allDay → p.H = allDay :=
+  fill_allDay_of_seed r p n l hr hp h
+
+/-- … for the yearly, monthly, weekly and daily filler: all-day exactly if the seed is (BYHOUR is ignored next to a DATE) -/
+theorem fill_same_kind (r : Rule) (p : Inst) (n : Nat) (l : List Inst) (hr : WfRule r) (hp : WfInst p)
+    (hf : r.freq ≤ 4) (h : fill r p n = some l) : ∀ x ∈ l, (x.H = allDay ↔ p.H = allDay) :=
+  Echse.Lemmas.RrAsm.fill_same_kind r p n l hr hp hf h
+
+/-- (the former statement, kept: the RFC's "no BYHOUR / BYMINUTE / BYSECOND next to a DATE" goes from seed to seed) -/
 theorem fill_hands_on_kind (r : Rule) (p : Inst) (n : Nat) (l : List Inst) (hr : WfRule r) (hp : WfInst p)
-    (hk : KindOk r p) (h : fill r p n = some l) : ∀ x ∈ l, KindOk r x :=
-  fill_kind_all r p n l hr hp hk h
+    (hk : p.H = allDay → r.H = [] ∧ r.M = [] ∧ r.S = []) (h : fill r p n = some l) :
+    ∀ x ∈ l, x.H = allDay → r.H = [] ∧ r.M = [] ∧ r.S = [] :=
+  fun x hx ha => hk (fill_keeps_kind r p n l hr hp h x hx ha)
 
 /-! ### the stream -/
 
 /-- every prefix of every stream is strictly ascending, not before DTSTART, not after UNTIL, at most COUNT long -/
-theorem stream_ordered_bounded (r : Rule) (ds : Inst) (hr : WfRule r) (hd : WfInst ds) (hk : KindOk r ds)
+theorem stream_ordered_bounded (r : Rule) (ds : Inst) (hr : WfRule r) (hd : WfInst ds)
     (hs : ShiftOk r) (n : Nat) (l : List Inst) (ended : Bool) (h : pops n (mkStrm r ds) = some (l, ended)) :
     StreamOk r ds l :=
-  pops_ok_of strm_contract r ds hr hd (strmK_start r ds hk hs) n l ended h
+  pops_ok_of strm_contract r ds hr hd (strmK_start r ds hs) n l ended h
 
 /-- every occurrence handed out is a sane instant: a real date 1601..2100, all-day or with a proper time of day -/
-theorem stream_sane (r : Rule) (ds : Inst) (hr : WfRule r) (hd : WfInst ds) (hk : KindOk r ds)
+theorem stream_sane (r : Rule) (ds : Inst) (hr : WfRule r) (hd : WfInst ds)
     (hs : ShiftOk r) (n : Nat) (l : List Inst) (ended : Bool) (h : pops n (mkStrm r ds) = some (l, ended)) :
     ∀ x ∈ l, WfInst x :=
-  pops_wf_of strm_contract r ds hr hd (strmK_start r ds hk hs) n l ended h
+  pops_wf_of strm_contract r ds hr hd (strmK_start r ds hs) n l ended h
 
 /-- COUNT reached means end of stream: once COUNT occurrences are out, the next pop yields nothing -/
-theorem stream_ends_after_count (r : Rule) (ds : Inst) (hr : WfRule r) (hd : WfInst ds) (hk : KindOk r ds)
+theorem stream_ends_after_count (r : Rule) (ds : Inst) (hr : WfRule r) (hd : WfInst ds)
     (hs : ShiftOk r) (hcnt : 0 < r.count) (n : Nat) (l : List Inst) (ended : Bool)
     (h : pops n (mkStrm r ds) = some (l, ended)) (hlen : (l.length : Int) = r.count) (l' : List Inst) (e' : Bool)
     (h' : pops (n + 1) (mkStrm r ds) = some (l', e')) : l' = l ∧ e' = true :=
-  pops_count_ends_of strm_contract r ds hr hd (strmK_start r ds hk hs) hcnt n l ended h hlen l' e' h'
+  pops_count_ends_of strm_contract r ds hr hd (strmK_start r ds hs) hcnt n l ended h hlen l' e' h'
 
 /-- the stream never gets stuck: every pop of every stream returns (an occurrence or end-of-stream) -/
-theorem stream_defined (r : Rule) (ds : Inst) (hr : WfRule r) (hd : WfInst ds) (hk : KindOk r ds) (hs : ShiftOk r)
+theorem stream_defined (r : Rule) (ds : Inst) (hr : WfRule r) (hd : WfInst ds) (hs : ShiftOk r)
     (n : Nat) : (pops n (mkStrm r ds)).isSome :=
-  pops_some strm_contract hr n [] (mkStrm r ds) (inv_mk r ds hd (strmK_start r ds hk hs))
+  pops_some strm_contract hr n [] (mkStrm r ds) (inv_mk r ds hd (strmK_start r ds hs))
 
-/-! ### the hypotheses are needed (for the fillers' contract) -/
+/-! ### no hypothesis on the kind of DTSTART is needed -/
 
-/-- FREQ=YEARLY;BYMINUTE=30 on the all-day DTSTART 2000-01-01: everything holds but `KindOk`, and the filler writes
-an instant with hour ALL_DAY and minute 30 -/
+/-- FREQ=YEARLY;BYMINUTE=30 on the all-day DTSTART 2000-01-01 (RFC 5545 forbids the combination and has BYMINUTE
+ignored): the filler writes the plain all-day instant -- before the repair of `make_enum` an instant with hour ALL_DAY
+and minute 30 -- and the contract holds -/
 def kR : Rule := { freq := 1, M := [30] }
 def kD : Inst := { y := 2000, m := 1, d := 1, H := allDay, M := 0, S := 0, ms := 0 }
 theorem kR_wf : WfRule kR := by constructor <;> simp [kR, Asc]
 theorem kD_wf : WfInst kD := by constructor <;> decide
 
-theorem needs_kindOk : WfRule kR ∧ WfInst kD ∧ ShiftOk kR ∧ ¬ KindOk kR kD ∧
-    ∃ l, fill kR kD 1 = some l ∧ ¬ FillOk kR kD 1 l := by
-  refine ⟨kR_wf, kD_wf, Or.inl rfl, fun h => ?_, [{ kD with M := 30 }], by decide +kernel, fun h => ?_⟩
-  · have := (h rfl).2.1; revert this; decide
-  · have := (h.wf _ List.mem_cons_self).time
-    revert this; decide
+theorem kind_not_needed : WfRule kR ∧ WfInst kD ∧ ShiftOk kR ∧ ¬ (kD.H = allDay → kR.H = [] ∧ kR.M = [] ∧ kR.S = []) ∧
+    fill kR kD 1 = some [kD] ∧ FillOk kR kD 1 [kD] := by
+  have hf : fill kR kD 1 = some [kD] := by decide +kernel
+  refine ⟨kR_wf, kD_wf, Or.inl rfl, fun h => ?_, hf, fill_ok kR kD 1 [kD] kR_wf kD_wf (Or.inl rfl) (by decide) hf⟩
+  have := (h rfl).2.1; revert this; decide
 
-/-- … and the stream hands it out: `stream_sane` fails without `KindOk` -/
-theorem needs_kindOk_stream : ∃ l e, pops 1 (mkStrm kR kD) = some (l, e) ∧ ¬ ∀ x ∈ l, WfInst x := by
-  refine ⟨[{ kD with M := 30 }], false, by decide +kernel, fun h => ?_⟩
-  have := (h _ List.mem_cons_self).time
-  revert this; decide
+/-- … and the stream hands out the DATE values year by year -/
+theorem kind_not_needed_stream :
+    pops 3 (mkStrm kR kD) = some ([kD, { kD with y := 2001 }, { kD with y := 2002 }], false) ∧
+    ∀ x ∈ [kD, { kD with y := 2001 }, { kD with y := 2002 }], WfInst x := by
+  have hp : pops 3 (mkStrm kR kD) = some ([kD, { kD with y := 2001 }, { kD with y := 2002 }], false) := by
+    decide +kernel
+  exact ⟨hp, stream_sane kR kD kR_wf kD_wf (Or.inl rfl) 3 _ false hp⟩
+
+/-- FREQ=HOURLY;BYMINUTE=30 on the same DATE: the sub-daily fillers read the seed as midnight, BYMINUTE expands as
+before -/
+def hR : Rule := { freq := 5, M := [30] }
+theorem hR_wf : WfRule hR := by constructor <;> simp [hR, Asc]
+theorem kind_not_needed_hourly :
+    pops 2 (mkStrm hR kD) = some ([{ kD with H := 0, M := 30 }, { kD with H := 1, M := 30 }], false) ∧
+    StreamOk hR kD [{ kD with H := 0, M := 30 }, { kD with H := 1, M := 30 }] := by
+  have hp : pops 2 (mkStrm hR kD) = some ([{ kD with H := 0, M := 30 }, { kD with H := 1, M := 30 }], false) := by
+    decide +kernel
+  exact ⟨hp, stream_ordered_bounded hR kD hR_wf kD_wf (Or.inl rfl) 2 _ false hp⟩
+
+/-! ### the hypothesis on SHIFT is needed (for the fillers' contract) -/
 
 /-- FREQ=YEARLY;BYMONTH=1;BYMONTHDAY=1;SHIFT=-672 from 2021-01-01: everything holds but `ShiftOk`, and the filler
 writes 2021-02-29 (2022-01-01 less 672 days is 2020-02-29, filed under "the year before 2022") -/
@@ -118,9 +145,9 @@ def sD : Inst := { y := 2021, m := 1, d := 1, H := allDay, M := 0, S := 0, ms :=
 theorem sR_wf : WfRule sR := by constructor <;> simp [sR, Asc]
 theorem sD_wf : WfInst sD := by constructor <;> decide
 
-theorem needs_shiftOk : WfRule sR ∧ WfInst sD ∧ KindOk sR sD ∧ ¬ ShiftOk sR ∧
+theorem needs_shiftOk : WfRule sR ∧ WfInst sD ∧ ¬ ShiftOk sR ∧
     ∃ l, fill sR sD 1 = some l ∧ ¬ FillOk sR sD 1 l := by
-  refine ⟨sR_wf, sD_wf, KindOk.of_plain _ _ rfl rfl rfl, fun h => ?_, [{ sD with m := 2, d := 29 }],
+  refine ⟨sR_wf, sD_wf, fun h => ?_, [{ sD with m := 2, d := 29 }],
     by decide +kernel, fun h => ?_⟩
   · have e : sR.shift = -672 * 65536 := rfl
     rcases h with h | ⟨n, h, h1, h2⟩ | ⟨h, _⟩
@@ -169,7 +196,7 @@ example : ∃ l, pops 70 (mkStrm dR dD) = some (l, false) ∧ l.length = 70 ∧ 
     simp only [summary, Option.map_some, Option.some.injEq, Prod.mk.injEq] at h
     obtain ⟨h1, _, _, h4⟩ := h
     subst h4
-    exact ⟨l, rfl, h1, stream_ordered_bounded dR dD dR_wf dD_wf (KindOk.of_timed _ _ (by decide)) (Or.inl rfl) 70 l false hp⟩
+    exact ⟨l, rfl, h1, stream_ordered_bounded dR dD dR_wf dD_wf (Or.inl rfl) 70 l false hp⟩
 
 /-- FREQ=YEARLY;BYMONTH=1;BYMONTHDAY=1;SHIFT=-1;COUNT=3 from the DATE 2020-01-01: New Year's Eves -/
 def yR : Rule := { freq := 1, count := 3, shift := -1 * 65536, mon := [1], dom := [1] }
@@ -181,7 +208,7 @@ theorem yR_pops : pops 4 (mkStrm yR yD) =
   decide +kernel
 
 example : StreamOk yR yD [{ yD with m := 12, d := 31 }, { yD with y := 2021, m := 12, d := 31 }, { yD with y := 2022, m := 12, d := 31 }] :=
-  stream_ordered_bounded yR yD yR_wf yD_wf (KindOk.of_plain _ _ rfl rfl rfl) (Or.inr (Or.inl ⟨-1, rfl, by decide, by decide⟩)) 4 _ true yR_pops
+  stream_ordered_bounded yR yD yR_wf yD_wf (Or.inr (Or.inl ⟨-1, rfl, by decide, by decide⟩)) 4 _ true yR_pops
 
 /-- FREQ=MONTHLY;BYMONTHDAY=1;SHIFT=-1B;COUNT=3 from 2020-01-01T17:00:00: the last business day of each month
 (`5 = 1 * 4 + 1`: one business day, backward) -/
@@ -194,7 +221,7 @@ theorem bR_pops : pops 3 (mkStrm bR bD) =
   decide +kernel
 
 example : StreamOk bR bD [{ bD with d := 31 }, { bD with m := 2, d := 28 }, { bD with m := 3, d := 31 }] :=
-  stream_ordered_bounded bR bD bR_wf bD_wf (KindOk.of_timed _ _ (by decide))
+  stream_ordered_bounded bR bD bR_wf bD_wf
     (shiftOk_bdays bR 1 true false (by decide) rfl) 3 _ false bR_pops
 
 end C16
